@@ -203,7 +203,12 @@ class TermGen:
         if x < 0.88:
             return self.term(readable, depth - 1, "int")
         # calls through the function container
-        fn = r.choice(["lin", "sq", "sub3", "mean", "pick", "tot"])
+        fn = r.choice(["lin", "sq", "sub3", "mean", "pick", "tot", "kws"])
+        if fn == "kws":
+            # several keyword arguments in call-site (not alphabetical) order, to a callee that observes the order
+            names = r.sample(["z", "y", "x", "w"], r.randrange(2, 4))
+            return ["call", "kws", [self.term(readable, depth - 1)] if r.random() < 0.4 else [],
+                    [[nm, self.term(readable, depth - 1)] for nm in names]]
         if fn == "tot":
             # a task that reads a WHOLE nested container (depends on the enclosing ref, not on its members)
             names = {tuple(map(str, x["path"])) for x in readable}
@@ -278,6 +283,8 @@ class HistoryGen:
         self.wide_whole = rng.random() < 0.5
         if self.wide_whole:
             self.tg.whole_groups = tuple(WHOLE_SIZE)
+        self.load_tg = self.tg if self.tg.profile <= frozenset(["keys"]) else TermGen(rng, "plain")
+        self.load_tg.whole_groups = self.tg.whole_groups
         self.w = dict(self.WEIGHTS)
         if weights:
             self.w.update(weights)
@@ -467,7 +474,8 @@ class HistoryGen:
                 # (a dump may define one target twice: the later pair wins with overwrite=True, the
                 #  earlier one stays with overwrite=False)
                 if rd and (all(p[0] != t["path"] for p in pairs) or r.random() < 0.5):
-                    pairs.append([t["path"], self.tg.deferred_term(rd, r.randrange(1, self.depth + 1))])
+                    # (what a dump can carry: no literal-only expressions, no math.floor/ceil/trunc texts -- KF2)
+                    pairs.append([t["path"], self.load_tg.deferred_term(rd, r.randrange(1, self.depth + 1))])
             return ["load", pairs, r.random() < 0.5] if pairs else None
         if kind == "unreg_task":
             names = sorted(s.ftasks) + sorted(s.knobs)
